@@ -48,7 +48,17 @@ fn all_ops(nsets: usize, bits: usize) -> Vec<Op> {
     v
 }
 
-fn run_seq(ops: &[Op], nsets: usize, bits: usize) -> String {
+/// membership of each candidate, read through the diagram
+fn members_of(set: &BDDSet, cands: &[usize]) -> String {
+    let b: Rc<BDD<usize>> = set.bdd.borrow().clone();
+    cands.iter().map(|e| if eval(&b, &|c: usize| c >= usize::BITS as usize || (*e >> c) & 1 == 0) { '1' } else { '0' }).collect()
+}
+
+fn run_seq(ops: &[Op], nsets: usize, bits: usize) -> String { run_seq_on(ops, nsets, bits, None) }
+
+/// `cands`: observe the membership of these elements only (sets too wide to enumerate)
+fn run_seq_on(ops: &[Op], nsets: usize, bits: usize, cands: Option<&[usize]>) -> String {
+    let mask_of = |s: &BDDSet, bits: usize| -> String { match cands { Some(c) => members_of(s, c), None => mask_of(s, bits).to_string() } };
     let env = Rc::new(BDDEnv::new());
     let mut sets: Vec<BDDSet> = (0..nsets).map(|_| BDDSet::with_env(bits, &env)).collect();
     let mut obs: Vec<String> = Vec::new();
@@ -90,7 +100,11 @@ fn run_seq(ops: &[Op], nsets: usize, bits: usize) -> String {
             }
         }
     }
-    format!("C19|seq|{}|{}|{}|{}", bits, nsets, ops.iter().map(show_op).collect::<Vec<_>>().join(";"), obs.join(";"))
+    match cands {
+        None => format!("C19|seq|{}|{}|{}|{}", bits, nsets, ops.iter().map(show_op).collect::<Vec<_>>().join(";"), obs.join(";")),
+        Some(c) => format!("C19|wide|{}|{}|{}|{}|{}", bits, nsets, c.iter().map(|e| e.to_string()).collect::<Vec<_>>().join(","),
+            ops.iter().map(show_op).collect::<Vec<_>>().join(";"), obs.join(";")),
+    }
 }
 
 pub fn c19(out: &mut dyn Write, tier: &str, rng: &mut Rng, st: &mut Stats) {
@@ -147,5 +161,43 @@ pub fn c19(out: &mut dyn Write, tier: &str, rng: &mut Rng, st: &mut Stats) {
         }
         writeln!(out, "{}", run_seq(&seq, nsets, bits)).unwrap();
         st.hit("random");
+    }
+    // sets wider than a 32-bit word (33, 34, 40, 63 and 64 bits): the universe cannot be enumerated, so membership is
+    // observed for every element that occurs in the history (reduced to the width) and for two elements that never do
+    let mw = if tier == "thorough" { 6000 } else { 300 };
+    for i in 0..mw {
+        let bits = [33usize, 34, 40, 63, 64][i % 5];
+        let top: usize = if bits == 64 { usize::MAX } else { (1usize << bits) - 1 };
+        let hi = 1usize << (bits - 1);
+        let mut pool: Vec<usize> = vec![0, 1, 3, (1 << 31) + 3, 1 << 32, (1 << 32) + 3, (1 << 32) + 1, hi, hi + 3, top, top - 1];
+        if bits > 33 { pool.push((1 << 33) + 3); pool.push(1 << 33); }
+        let generic: [usize; 2] = [6, (1usize << 32) + 6];
+        let mut cands = pool.clone();
+        cands.extend(generic);
+        let mut cur = 2usize;
+        let mut seq: Vec<Op> = Vec::new();
+        for _ in 0..24 {
+            let elem = |rng: &mut Rng| -> usize {
+                let e = *rng.pick(&pool[..]);
+                // sometimes a value beyond the width: the same element once reduced
+                if bits < 63 && rng.chance(1, 10) { e + (1usize << bits) } else { e }
+            };
+            let a = rng.below(cur as u64) as usize;
+            let b = rng.below(cur as u64) as usize;
+            let op = match rng.below(16) {
+                0 if cur < 5 => { cur += 1; match rng.below(4) { 0 => Op::New, 1 => Op::FromElem(elem(rng)), 2 => Op::Clone(a), _ => Op::FromBdd(a) } }
+                1 | 2 => Op::Eq(a, b),
+                3..=7 => Op::Ins(a, elem(rng)),
+                8..=10 => Op::Has(a, elem(rng)),
+                11 => Op::Uni(a, b),
+                12 => Op::Int(a, b),
+                13 => Op::Cmp(a, b),
+                14 => if rng.chance(1, 2) { Op::Emp(a) } else { Op::Unv(a) },
+                _ => Op::Has(a, elem(rng)),
+            };
+            seq.push(op);
+        }
+        writeln!(out, "{}", run_seq_on(&seq, 2, bits, Some(&cands))).unwrap();
+        st.hit(&format!("wide.bits{}", bits));
     }
 }
